@@ -5378,7 +5378,7 @@ func (t *Terminal) Loop() error {
 			case actReplaceQuery:
 				current := t.currentItem()
 				if current != nil {
-					t.input = current.text.ToRunes()
+					t.input = copySlice(current.text.ToRunes())
 					t.cx = len(t.input)
 				}
 			case actFatal:
